@@ -196,13 +196,16 @@ def resolveFromBlock (verify : FHash → Nat → VRes) (h : Nat) (fl : List (Pee
   if best < threshold then .error .errNoMajority else
   .ok ((fl.filter (fun x => count x.2 < best)).map (·.1))
 
+/-- the test of phase 1 for one entry of the header map -/
+def p1cond (fl : List (Peer × FHash)) (pm : Peer × Msg) (i : Nat) : Bool :=
+  match lookupF fl pm.1 with
+  | none => true
+  | some f => !(pm.2.hashes[i]? == some f)
+
 /-- phase 1 of `detectBadPeers`: peers in the header map that did not serve
 the filter, or whose filter does not hash to what they advertised -/
 def phase1 (fl : List (Peer × FHash)) (hs : List (Peer × Msg)) (i : Nat) : List Peer :=
-  (hs.filter (fun pm =>
-    match lookupF fl pm.1 with
-    | none => true
-    | some f => !(pm.2.hashes[i]? == some f))).map (·.1)
+  (hs.filter (fun pm => p1cond fl pm i)).map (·.1)
 
 /-- `detectBadPeers`.  `earlyReturn` = the `if len(badPeers) != 0 { return }`
 after phase 1 is present in the source (`Gen.CFHeaders.detectEarlyReturn`). -/
